@@ -19,6 +19,7 @@ package commonmark
 import (
 	"fmt"
 	"html"
+	"strconv"
 	"strings"
 	"unicode/utf8"
 
@@ -66,7 +67,7 @@ func (inline *Inline) Text(source []byte) string {
 	case TextKind, RawHTMLKind:
 		return string(spanSlice(source, inline.Span()))
 	case CharacterReferenceKind:
-		return html.UnescapeString(string(spanSlice(source, inline.Span())))
+		return characterReferenceText(spanSlice(source, inline.Span()))
 	case SoftLineBreakKind:
 		if inline.Span().Len() == 0 {
 			return "\n"
@@ -88,13 +89,33 @@ func (inline *Inline) Text(source []byte) string {
 			case TextKind:
 				sb.Write(spanSlice(source, child.Span()))
 			case CharacterReferenceKind:
-				sb.WriteString(html.UnescapeString(string(spanSlice(source, child.Span()))))
+				sb.WriteString(characterReferenceText(spanSlice(source, child.Span())))
 			}
 		}
 		return sb.String()
 	default:
 		return ""
 	}
+}
+
+// characterReferenceText returns the text that a [character reference] stands for.
+// Unlike in HTML, a numeric reference always stands for the code point with that number:
+// 128 to 159 are not read as windows-1252.
+//
+// [character reference]: https://spec.commonmark.org/0.30/#entity-and-numeric-character-references
+func characterReferenceText(ref []byte) string {
+	if len(ref) < 4 || ref[1] != '#' {
+		return html.UnescapeString(string(ref))
+	}
+	digits, base := ref[2:len(ref)-1], 10
+	if digits[0] == 'x' || digits[0] == 'X' {
+		digits, base = digits[1:], 16
+	}
+	n, err := strconv.ParseUint(string(digits), base, 32)
+	if err != nil || n == 0 || n > utf8.MaxRune || 0xd800 <= n && n <= 0xdfff {
+		return "\ufffd"
+	}
+	return string(rune(n))
 }
 
 // LinkDestination returns the destination child of a [LinkKind] node
